@@ -123,17 +123,18 @@ impl<'a> InputGen<'a> {
                 if rng.coin() {
                     nv(&mut self.ids, name, str_lit(rng, &vn))
                 } else {
-                    let inner = word(&mut self.ids, &vn);
+                    let inner = word(&mut self.ids, &spelled(rng, &vn));
                     list(&mut self.ids, name, vec![inner])
                 }
             }
             VBody::Newtype(t) => {
-                let inner = self.item_for(rng, &vn, t, depth);
+                let sp = spelled(rng, &vn);
+                let inner = self.item_for(rng, &sp, t, depth);
                 list(&mut self.ids, name, vec![inner])
             }
             VBody::Struct(fs) => {
                 let items = self.fields_items(rng, r, fs, depth);
-                let inner = list(&mut self.ids, &vn, items);
+                let inner = list(&mut self.ids, &spelled(rng, &vn), items);
                 list(&mut self.ids, name, vec![inner])
             }
         }
@@ -178,10 +179,12 @@ impl<'a> InputGen<'a> {
             let optional = f.default != Def::None || r.cdefault != Def::None || r.from_ident || matches!(f.ty, Ty::Opt(_)) || f.multiple || self.has_from_none(&f.ty);
             if f.multiple {
                 for _ in 0..rng.below(4) {
-                    items.push(self.item_for(rng, &name, &f.ty, depth));
+                    let sp = spelled(rng, &name);
+                    items.push(self.item_for(rng, &sp, &f.ty, depth));
                 }
             } else if !optional || rng.chance(2, 3) {
-                items.push(self.item_for(rng, &name, &f.ty, depth));
+                let sp = spelled(rng, &name);
+                items.push(self.item_for(rng, &sp, &f.ty, depth));
             }
         }
         rng.shuffle(&mut items);
@@ -762,5 +765,15 @@ pub fn render_element(rng: &mut Rng, tr: Trait, attrs: &[Attr], tail: &str) -> R
         text,
         ranges,
         attrs: ars,
+    }
+}
+
+/// An item's name may be written with a leading `::`: it is the same name (a field, a variant or an
+/// option is matched on the identifiers of the path).
+fn spelled(rng: &mut Rng, name: &str) -> String {
+    if !name.starts_with("::") && rng.chance(1, 10) {
+        format!("::{name}")
+    } else {
+        name.to_string()
     }
 }
